@@ -70,6 +70,12 @@ func containerPositions(docs []*ref.Node) []vpath {
 	return out
 }
 
+// long-lived destinations for route 3
+var (
+	navArrs [32]simdjson.Array
+	navObjs [32]simdjson.Object
+)
+
 const nRoutes = 3
 
 var routeNames = []string{"Advance/NextElementBytes", "AdvanceIter/Object.Parse", "ForEach", "AdvanceIter/NextElementBytes"}
@@ -92,10 +98,14 @@ func navigate(pj *simdjson.ParsedJson, p vpath, route int) (cur *simdjson.Iter, 
 	if err != nil {
 		return nil, err
 	}
-	for _, idx := range p[1:] {
+	for lvl, idx := range p[1:] {
 		switch cur.Type() {
 		case simdjson.TypeArray:
-			arr, err := cur.Array(nil)
+			var adst *simdjson.Array
+			if route == 3 && lvl < len(navArrs) {
+				adst = &navArrs[lvl] // long-lived destination, last used for some other document
+			}
+			arr, err := cur.Array(adst)
 			if err != nil {
 				return nil, err
 			}
@@ -141,7 +151,11 @@ func navigate(pj *simdjson.ParsedJson, p vpath, route int) (cur *simdjson.Iter, 
 				cur = found
 			}
 		case simdjson.TypeObject:
-			obj, err := cur.Object(nil)
+			var odst *simdjson.Object
+			if route == 3 && lvl < len(navObjs) {
+				odst = &navObjs[lvl]
+			}
+			obj, err := cur.Object(odst)
 			if err != nil {
 				return nil, err
 			}
@@ -403,7 +417,7 @@ func applyReal(pj *simdjson.ParsedJson, docs []*ref.Node, o editOp) (apiErr erro
 		if n.K == ref.KObj && !bytes.Equal(key, n.Keys[m]) {
 			cbBad = fmt.Sprintf("callback %d got key %q, member key is %q", ci-1, key, n.Keys[m])
 		}
-		w := &walker{budget: 1 << 16}
+		w := &walker{budget: 1 << 24}
 		got, err := w.value(&i)
 		if err != nil {
 			cbBad = fmt.Sprintf("callback %d: value unreadable: %v", ci-1, err)
